@@ -57,6 +57,15 @@ def train(passwords=None, dest=None, encoding='utf-8', ngram=4, alphabet_size=10
             super().__init__(*a, **kw)
             inputs.append(self)
 
+    # the segmentation itself: the final section list of every parsed password (C06's tallies are tallies of these)
+    import lib_trainer.pcfg_password_parser as ppm
+    sections = []
+    orig_bsc = ppm.base_structure_creation
+
+    def bsc(section_list, *a, **kw):
+        sections.append([(t, lab) for t, lab in section_list])
+        return orig_bsc(section_list, *a, **kw)
+    ppm.base_structure_creation = bsc
     rt.calc_omen_keyspace = calc
     rt.save_pcfg_data = save_pcfg
     rt.save_omen_rules_to_disk = save_omen
@@ -73,6 +82,8 @@ def train(passwords=None, dest=None, encoding='utf-8', ngram=4, alphabet_size=10
     finally:
         for k, v in orig.items():
             setattr(rt, k, v)
+        ppm.base_structure_creation = orig_bsc
+    cap['sections'] = sections
     cap['file_inputs'] = inputs
     cap['program_info'] = info
     return {'ok': ok, 'dir': work, 'captured': cap, 'stdout': out.getvalue(), 'error': err,
